@@ -130,6 +130,17 @@ def configs_for(rnd, model, task):
     else:
         k = task.get("configs_per_model", 3)
         cfgs = [gen.gen_config(rnd, model, cost=cost) for _ in range(k)]
+    fc = task.get("force_cfg")
+    if fc:
+        for c in cfgs:
+            for key, choices in fc.items():
+                v = rnd.choice(choices)
+                if v == "min_cost" and c.get("costs") is None:
+                    if all(a >= 0 for a, b in model["doms"]):
+                        c["costs"] = gen.gen_costs(rnd, model["doms"])
+                    else:
+                        v = "mid"
+                c[key] = v
     return cfgs
 
 
